@@ -155,6 +155,11 @@ impl Scenario for EciesNet {
                 }), "entropy": hx(&script), "rejected": rejected, "ekind": ekind}));
             let n_ops = rng.range(1, 4);
             for _ in 0..n_ops {
+                if rng.chance(1, 8) {
+                    // a sender who knows the shared secret authenticates rubbish: genuine MAC over a body that no CBC decryption accepts
+                    let bl = *rng.pick(&[0usize, 1, 15, 17, 24, 33, 40]);
+                    events.push(json!({"op": "byz_packet", "skey": keys[s_idx as usize], "rkey": keys[r_idx as usize], "body": hx(&rng.bytes(bl)), "has_key": rng.chance(1, 2)}));
+                }
                 match rng.weighted(&[30, 55, 15]) {
                     0 => {
                         // positions are resolved against the actual wire length at execution time
@@ -350,6 +355,45 @@ impl Scenario for EciesNet {
                     }
                     let sender_pub = rf::pubkey_of(&sender_secret, true).unwrap_or_default();
                     pkts[p] = Some(Packet { pristine: wire.clone(), wire, msg, sender_pub, recipient_secret: rkey, has_key, from_bsv: false, held: None, flips: vec![], deliveries: 0 });
+                }
+                "byz_packet" => {
+                    // what the receiver answers to authenticated rubbish is not in the statement (no panic is); what matters is that
+                    // the deliveries after it are judged as if it had never arrived
+                    let (skey, rkey, body, has_key) = (jhex(ev, "skey"), jhex(ev, "rkey"), jhex(ev, "body"), jbool(ev, "has_key"));
+                    if !rf::is_valid_secret(&skey) || !rf::is_valid_secret(&rkey) {
+                        ctx.skip();
+                        continue;
+                    }
+                    ctx.event(seq, "byz_packet", "");
+                    ctx.fault("byzantine-sender");
+                    let rpub = rf::pubkey_of(&rkey, true).unwrap();
+                    let spub = rf::pubkey_of(&skey, true).unwrap();
+                    let keys = match rf::bie1_keys(&skey, &rpub) {
+                        Some(k) => k,
+                        None => continue,
+                    };
+                    let mut wire = b"BIE1".to_vec();
+                    if has_key {
+                        wire.extend(&spub);
+                    }
+                    wire.extend(&body);
+                    let mac = crate::scen_digest::ref_hmac("sha256", &keys.km, &wire);
+                    wire.extend(mac);
+                    let r = guard(|| -> Result<Vec<u8>, String> {
+                        let ct = ECIESCiphertext::from_bytes(&wire, has_key).map_err(|e| e.to_string())?;
+                        let rk = PrivateKey::from_bytes(&rkey).map_err(|e| e.to_string())?;
+                        let sp = PublicKey::from_bytes(&spub).map_err(|e| e.to_string())?;
+                        ECIES::decrypt(&ct, &rk, &sp).map_err(|e| e.to_string())
+                    });
+                    match r {
+                        Ok(Ok(_)) => ctx.probe("authenticated_rubbish_decrypted"),
+                        Ok(Err(_)) => ctx.probe("authenticated_rubbish_refused"),
+                        Err(pn) => {
+                            if ctx.violate("panic", format!("panic@{}#decrypt authenticated rubbish", site_file(&pn.site)), format!("{}: {}", pn.site, pn.msg)) {
+                                return;
+                            }
+                        }
+                    }
                 }
                 "flip" => {
                     let pk = match pkts.get_mut(p).and_then(|x| x.as_mut()) {
